@@ -54,12 +54,15 @@ MCFieldSet(c) ==
 \* The spelling twin (parameters under PartialOrd(..) although Ord is educed)
 \* and the Ord-without-educed-PartialOrd set are exercised on structs and
 \* single-variant enums only; non-rich variants use SimpleStyles.
-MCAdmissible(c) ==
-  /\ RanksUnique(c)
+MCSemOK(c) == RanksUnique(c)
+MCBoundOK(c) ==
+  /\ TRUE
   /\ (c.opts.ordvia = "PartialOrd" /\ HasTrait(c, "Ord")) \/ ~HasTrait(c, "PartialOrd") => NVariants(c) <= 1
   /\ \A v \in 1..NVariants(c) :
         (NVariants(c) > 1 /\ ~IsRich(c.variants[v]) /\ \E w \in 1..NVariants(c) : w # v /\ IsRich(c.variants[w]))
            => c.variants[v].style \in SimpleStyles
+MCAdmissible(c) == MCBoundOK(c) /\ MCSemOK(c)
+DoSealBad == SealBad(MCBoundOK, MCSemOK) /\ UNCHANGED run
 
 Init == BuildInit /\ run = NoRun
 
@@ -101,7 +104,7 @@ Return ==
   /\ run' = NoRun
   /\ UNCHANGED <<cfg, phase>>
 
-Next == DoStart \/ DoAddVariant \/ DoAddField \/ DoSeal \/ DoBegin \/ Step \/ Return
+Next == DoStart \/ DoAddVariant \/ DoAddField \/ DoSeal \/ DoSealBad \/ DoBegin \/ Step \/ Return
 Spec == Init /\ [][Next]_vars
 
 \* ------------------------------------------------------------ properties
